@@ -216,13 +216,115 @@ K9_VALUES = [["str", "\ud800"], ["str", "a\udfffb"], ["str", "\udc00\ud800"]]
 
 
 # ============================================================================ schema (oracle copy)
-def registration_order(templates):
-    """templates in the order the parser registers them: children before their parent"""
+# A recipe case is a small project: the main file (`templates` = its statements, `includes`, `macros`) and
+# `files` it includes (each {name, includes, macros, stmts}).  A statement is a template
+# {table, fields, friends, count?, upd?, nick?, include?: [macro names]} or {"var": name, "value": ["obj", template]}.
+# A field value may hold nested templates: ["obj", template] or ["fn", [templates], flow?].
+# A macro is {name, include?: [...], fields, friends}.
+MAIN_FILE = "r.yml"
+
+
+class ParseErr(Exception):
+    """the harness's reading of the recipe says the parser must refuse it"""
+
+
+def _dedupe(names):
     out = []
-    for t in templates:
-        out.extend(registration_order(t.get("friends", [])))
-        out.append(t)
+    for n in names:
+        if n not in out:
+            out.append(n)
     return out
+
+
+def load_project(case):
+    """(macros by name, statement list) the way parse_file collects them: the statements of included
+    files first (depth first), a later macro definition replaces an earlier one"""
+    files = {f["name"]: f for f in case.get("files", [])}
+    macros = {}
+
+    def load(f, name, stack):
+        stmts = []
+        for inc in f.get("includes", []):
+            if inc not in files:
+                raise ParseErr("include file %s does not exist" % inc)
+            if inc == name or inc in stack:
+                raise ParseErr("include file %s includes itself" % inc)
+            stmts += load(files[inc], inc, stack + [name])
+        for m in f.get("macros", []):
+            macros[m["name"]] = m
+        return stmts + list(f.get("stmts", []))
+
+    main = {"includes": case.get("includes", []), "macros": case.get("macros", []), "stmts": case["templates"]}
+    return macros, load(main, MAIN_FILE, [])
+
+
+def _walk_value(v, macros, stack, out):
+    if v and v[0] == "obj":
+        _walk_tpl(v[1], macros, stack, out)
+    elif v and v[0] == "fn":
+        for t in v[1]:
+            _walk_tpl(t, macros, stack, out)
+
+
+def _walk_fields(fields, macros, stack, out):
+    names = []
+    for name, v in fields:
+        _walk_value(v, macros, stack, out)
+        names.append(name)
+    return names
+
+
+def _walk_stmts(stmts, macros, stack, out):
+    for st in stmts:
+        if "var" in st:
+            _walk_value(st["value"], macros, stack, out)
+        else:
+            _walk_tpl(st, macros, stack, out)
+
+
+def _expand_macro(name, macros, parent, out):
+    if name not in macros:
+        raise ParseErr("no macro %s" % name)
+    if name in parent:
+        raise ParseErr("macro %s includes itself" % name)
+    m = macros[name]
+    st = parent + (name,)
+    names = []
+    for m2 in m.get("include", []):
+        names += _expand_macro(m2, macros, st, out)
+    names += _walk_fields(m.get("fields", []), macros, st, out)
+    _walk_stmts(m.get("friends", []), macros, st, out)
+    return _dedupe(names)
+
+
+def _walk_tpl(t, macros, stack, out):
+    """parse_object_template: macros, own fields (nested templates first), friends, then the template itself"""
+    names = []
+    for m in t.get("include", []):
+        names += _expand_macro(m, macros, stack, out)
+    names += _walk_fields(t["fields"], macros, stack, out)
+    _walk_stmts(t.get("friends", []), macros, stack, out)
+    out.append({"table": t["table"], "fields": [[n, None] for n in _dedupe(names)], "friends": [],
+                "upd": t.get("upd") or None})
+
+
+def registration_order(templates, macros=None):
+    """flat templates (all their fields, macro fields included) in the order the parser registers them"""
+    out = []
+    _walk_stmts(templates, macros or {}, (), out)
+    return out
+
+
+def case_flat(case):
+    macros, stmts = load_project(case)
+    return registration_order(stmts, macros)
+
+
+def case_templates(case):
+    """what py_infer / ctemplates / _names_hint take: flat templates for a recipe case, the given list otherwise"""
+    if case.get("kind") == "recipe":
+        return case_flat(case)
+    return case["templates"]
 
 
 def py_infer(templates):
@@ -459,35 +561,132 @@ def gen_mux_case(rng):
 
 
 # ============================================================================ rendering a recipe
-def recipe_doc(case, plugin_mod):
-    doc = [{"snowfakery_version": case["version"]}, {"plugin": plugin_mod + ".TV"}]
+def _dump(x, flow=False):
+    import yaml
+    return yaml.safe_dump(x, sort_keys=False, allow_unicode=True, width=10 ** 6, default_flow_style=True if flow else False)
+
+
+def render_project(case, plugin_mod):
+    """-> ({file name: YAML text}, [(file, line, table) of every top-level template])
+    Top-level items are dumped one by one, so that comment lines can be put between them: with `align` the
+    first template of every file starts on the same line number."""
+    flows = {}
+
+    def value(f):
+        if f[0] == "val":
+            return {"TV.val": f[1]}
+        if f[0] == "ref":
+            return {"reference": f[1]}
+        if f[0] == "idx":
+            return "${{child_index}}"
+        if f[0] == "obj":
+            d = tpl(f[1])
+            return [d] if len(f) > 2 and f[2] else d
+        if f[0] == "fn":
+            body = {"TV.first": [tpl(t) for t in f[1]]}
+            if len(f) > 2 and f[2]:
+                key = "FLOWPLACEHOLDER%dX" % len(flows)
+                flows[key] = _dump(body, flow=True).strip()
+                return key
+            return body
+        return f[1]
 
     def tpl(t):
         d = {"object": t["table"]}
         if t.get("nick"):
             d["nickname"] = t["nick"]
+        if t.get("just_once"):
+            d["just_once"] = True
         if t.get("count") is not None:
             d["count"] = t["count"]
+        if t.get("include"):
+            d["include"] = ", ".join(t["include"])
         if t.get("upd"):
             d["update_key"] = t["upd"]
-        fs = {}
-        for name, f in t["fields"]:
-            if f[0] == "val":
-                fs[name] = {"TV.val": f[1]}
-            elif f[0] == "ref":
-                fs[name] = {"reference": f[1]}
-            elif f[0] == "idx":
-                fs[name] = "${{child_index}}"
-            else:
-                fs[name] = f[1]
+        fs = {name: value(f) for name, f in t["fields"]}
         if fs:
             d["fields"] = fs
         if t.get("friends"):
-            d["friends"] = [tpl(x) for x in t["friends"]]
+            d["friends"] = [stmt(x) for x in t["friends"]]
         return d
 
-    doc.extend(tpl(t) for t in case["templates"])
-    return doc
+    def stmt(st):
+        if "var" in st:
+            return {"var": st["var"], "value": value(st["value"])}
+        return tpl(st)
+
+    def macro(m):
+        d = {"macro": m["name"]}
+        if m.get("include"):
+            d["include"] = ", ".join(m["include"])
+        fs = {name: value(f) for name, f in m.get("fields", [])}
+        if fs:
+            d["fields"] = fs
+        if m.get("friends"):
+            d["friends"] = [stmt(x) for x in m["friends"]]
+        return d
+
+    def items(f, main):
+        out = []
+        if main or f.get("version_line"):
+            out.append((None, {"snowfakery_version": case["version"]}))
+        if main:
+            out.append((None, {"plugin": plugin_mod + ".TV"}))
+        pre = [(None, {"include_file": n}) for n in f.get("includes", [])] + [(None, macro(m)) for m in f.get("macros", [])]
+        sts = [(st.get("table"), stmt(st)) for st in f.get("stmts", [])]
+        if f.get("macros_last"):
+            return out + [x for x in pre if "include_file" in x[1]] + sts + [x for x in pre if "macro" in x[1]]
+        return out + pre + sts
+
+    main = {"includes": case.get("includes", []), "macros": case.get("macros", []), "stmts": case["templates"],
+            "macros_last": case.get("macros_last")}
+    chunks = {MAIN_FILE: items(main, True)}
+    for f in case.get("files", []):
+        chunks[f["name"]] = items(f, False)
+    rendered = {}
+    for name, its in chunks.items():
+        out = []
+        for table, it in its:
+            text = _dump([it])
+            for key, flow in flows.items():
+                text = text.replace(key, flow)
+            out.append([table, text])
+        rendered[name] = out
+
+    def first_tpl_line(its):
+        line = 1
+        for table, text in its:
+            if table is not None:
+                return line
+            line += text.count("\n")
+        return None
+
+    if case.get("align"):
+        firsts = {n: first_tpl_line(its) for n, its in rendered.items()}
+        target = max([l for l in firsts.values() if l is not None] or [0])
+        for n, its in rendered.items():
+            if firsts[n] is not None and firsts[n] < target:
+                k = next(i for i, (table, _) in enumerate(its) if table is not None)
+                its.insert(k, [None, "# pad\n" * (target - firsts[n])])
+    texts, tops = {}, []
+    for n, its in rendered.items():
+        line = 1
+        for table, text in its:
+            if table is not None:
+                tops.append((n, line, table))
+            line += text.count("\n")
+        texts[n] = "".join(t for _, t in its)
+    return texts, tops
+
+
+def same_line_templates(case):
+    """number of top-level templates that share (line number, table) with a template of another file"""
+    try:
+        _, tops = render_project(case, "m")
+    except Exception:
+        return 0
+    seen = Counter((line, table) for _, line, table in tops)
+    return sum(1 for _, line, table in tops if seen[(line, table)] > 1)
 
 
 PLUGIN_SRC = '''import datetime, decimal
@@ -498,6 +697,8 @@ class TV(SnowfakeryPlugin):
     class Functions:
         def val(self, i):
             return VALUES[int(i)]
+        def first(self, *args, **kw):
+            return args[0] if args else None
 '''
 
 
@@ -812,8 +1013,10 @@ def run_recipe_case(case):
         mod = "tvp_" + C.case_key({k: v for k, v in case.items() if not k.startswith("_")})
         (d / "plugins").mkdir()
         (d / "plugins" / (mod + ".py")).write_text(plugin_source(case["values"]), encoding="utf-8")
-        rp = d / "r.yml"
-        rp.write_text(yaml.safe_dump(recipe_doc(case, mod), sort_keys=False, allow_unicode=True), encoding="utf-8")
+        rp = d / MAIN_FILE
+        texts, _ = render_project(case, mod)
+        for name, text in texts.items():
+            (d / name).write_text(text, encoding="utf-8")
 
         class QuietApp(SnowfakeryApplication):
             def __init__(self):
@@ -864,7 +1067,7 @@ def run_recipe_case(case):
             obs["run_err"] = C.canon_exc(e)
             obs["msg"] = str(e)[:300]
         obs["could_not_close"] = sum(1 for m, err in app.msgs if err and m.startswith("Could not close"))
-        obs["outputs"] = digest_outputs(case, order, raw, _names_hint(case["templates"]))
+        obs["outputs"] = digest_outputs(case, order, raw, _names_hint(case_templates(case)))
         if len(raw) <= 40:
             obs["raw"] = raw
         return obs
@@ -873,7 +1076,7 @@ def run_recipe_case(case):
 
 
 def digest_outputs(case, order, raw, hint):
-    schema = py_infer(case["templates"])
+    schema = py_infer(case_templates(case))
     outs = []
     for fmt, path in order:
         try:
@@ -1032,7 +1235,7 @@ def run_direct_case(case):
             w.close()
         watchers = []
         obs["traces"] = [(_changes(tr) if tr is not None else None) for _, _, tr in traces]
-        obs["outputs"] = digest_outputs(case, order, case["rows"], _names_hint(case["templates"]))
+        obs["outputs"] = digest_outputs(case, order, case["rows"], _names_hint(case_templates(case)))
         # full database contents for the model comparison (small cases)
         full = []
         for fmt, path in order:
@@ -1265,7 +1468,7 @@ def cschema(cols):
 
 def row_terms(case, outputs_obs, limit):
     """CRow terms for the sampled rows of every output"""
-    schema = py_infer(case["templates"])
+    schema = py_infer(case_templates(case))
     terms, seen = [], set()
     for o in outputs_obs:
         fmt = o["fmt"]
@@ -1294,7 +1497,7 @@ def schema_term(case, outputs_obs):
             and o.get("closed", True)]      # files of a stream that was never closed may be incomplete
     dbs = [o["cols"] for o in outputs_obs if o["fmt"] in ("db", "sql") and o.get("cols") and o.get("closed", True)]
     terms = []
-    tp = ctemplates(case["templates"])
+    tp = ctemplates(case_templates(case))
     for c in csvs[:1]:
         for d in (dbs[:1] or [None]):
             if d is None:
@@ -1308,11 +1511,11 @@ def schema_term(case, outputs_obs):
 
 
 def py_csv_cols(case):
-    return {t: columns_of(ti) for t, ti in py_infer(case["templates"]).items()}
+    return {t: columns_of(ti) for t, ti in py_infer(case_templates(case)).items()}
 
 
 def py_db_cols(case):
-    return {t: ["id"] + ti["fields"] + (["_sf_update_key"] if ti["upd"] else []) for t, ti in py_infer(case["templates"]).items()}
+    return {t: ["id"] + ti["fields"] + (["_sf_update_key"] if ti["upd"] else []) for t, ti in py_infer(case_templates(case)).items()}
 
 
 def summary_term(o):
@@ -1390,7 +1593,7 @@ def coq_case(case, obs):
                                            C.cbool(obs["could_not_close"] == 0))
             else:
                 exp = "None"
-            terms.append(f"CApp {ctemplates(case['templates'])} {outs} {rows} {exp}")
+            terms.append(f"CApp {ctemplates(case_templates(case))} {outs} {rows} {exp}")
         if not terms:
             return None
         return "CAll " + C.clist("(%s)" % t for t in terms)
